@@ -110,4 +110,119 @@ def quiet (l : List Ex) : Bool := l.all fun x => x != .inflight
     first attempt is unconditional, and each of the first `lim` completed attempts can license one more -/
 def budget (lim e : Nat) : Nat := lim + e
 
+/-! ### cancellation: the caller's context, the executor's derived context, and who gets the result
+
+  `executeQuery` derives `ctx, cancel := context.WithCancel(qry.Context())`, hands `ctx` to every execution
+  (`go q.run(ctx, …)`), returns the FIRST iter that an execution puts on `results` (capacity 1) — or `ctx.Err()`
+  when the caller's context is done first — and cancels `ctx` on its way out (`defer cancel()`).
+  Whether that cancellation reaches an attempt depends on the context the attempt runs under:
+  `Conn.executeQuery(ctx, qry)` passes `ctx` on to `Conn.exec` (`derived = true`), while `Conn.executeBatch(ctx, b)`
+  calls `c.exec(batch.Context(), …)` — the caller's context, not the executor's (`derived = false`).
+  An attempt on a context that is done returns `ctx.Err()` before anything is written (and is still counted). -/
+
+/-- what the caller of `executeQuery` holds -/
+inductive CRes where
+  | res (r : Res)      -- the iter of an attempt (`.logical`: a context error)
+  | noConn             -- ErrNoConnections: an execution found the shared iterator exhausted before any attempt
+  | unknownRT          -- ErrUnknownRetryType
+deriving DecidableEq, Repr
+
+structure MC where
+  m : M
+  callerDone : Bool := false      -- `qry.Context()` is done (cancelled by the caller / deadline passed)
+  execDone : Bool := false        -- the executor's derived context is done (`defer cancel()`, or its parent is)
+  result : Option CRes := none    -- what `executeQuery` has returned to the caller
+deriving DecidableEq, Repr
+
+inductive ActC where
+  | ex (a : Act)        -- a micro-step of one execution
+  | callerCancel        -- the caller's context becomes done
+  | execCancel          -- `executeQuery` has its result and runs the deferred `cancel()`
+deriving DecidableEq, Repr
+
+/-- the context the attempts run under is done -/
+def MC.attDone (derived : Bool) (c : MC) : Bool := c.callerDone || (c.execDone && derived)
+
+/-- a step of an execution whose attempt context is done: the attempt it goes on to make is dead -/
+def deaden : Act → Act
+  | .launch i => .abort i
+  | .decide i => .abort i
+  | a => a
+
+/-- the value `do` returns when the step `a`, taken on a live context, ends the execution (`none`: it goes on) -/
+def returned (pol : Option Policy) (m : M) : Act → Option CRes
+  | .launch i =>
+      match m.exs[i]? with
+      | some .idle => if m.left = 0 then some .noConn else none
+      | _ => none
+  | .decide i =>
+      match m.exs[i]? with
+      | some (.counted (.err e)) =>
+          match pol with
+          | none => some (.res (.err e))
+          | some p =>
+            if !p.attempt m.cnt then some (.res (.err e))
+            else match p.rtype e with
+              | .retry => none
+              | .nextHost => if m.left = 0 then some (.res (.err e)) else none   -- `&Iter{err: lastErr}`
+              | .unknown => some .unknownRT
+              | _ => some (.res (.err e))
+      | some (.counted r) => some (.res r)
+      | _ => none
+  | _ => none
+
+def initC (c0 hosts e : Nat) : MC := { m := init c0 hosts e }
+
+/-- `derived` = the statement's attempts run under the executor's derived context (Query) rather than under
+    the caller's (Batch). The first execution that returns while `executeQuery` is still waiting delivers the
+    result; `callerCancel` before that makes `executeQuery` return `ctx.Err()`. -/
+def stepC (pol : Option Policy) (derived : Bool) (c : MC) : ActC → MC
+  | .callerCancel =>
+      { c with callerDone := true, execDone := true, result := c.result <|> some (.res .logical) }
+  | .execCancel => if c.result.isSome then { c with execDone := true } else c
+  | .ex a =>
+      if c.attDone derived then { c with m := step pol c.m (deaden a) }
+      else match a with
+        | .abort _ => c      -- no attempt fails on a context that is live
+        | a => { c with m := step pol c.m a,
+                        result := if c.execDone then c.result else (c.result <|> returned pol c.m a) }
+
+def runC (pol : Option Policy) (derived : Bool) (c : MC) (sched : List ActC) : MC :=
+  sched.foldl (stepC pol derived) c
+
+/-! ### the statement's consistency level, written by `rt.Attempt` (DowngradingConsistencyRetryPolicy) from
+    whichever execution takes a retry decision and read by whichever execution builds the next request frame -/
+
+structure MK where
+  c : MC
+  cons : Nat                   -- `qry.GetConsistency()` now
+  reqCons : List Nat := []     -- the consistency each request sent so far carried, most recent first
+deriving DecidableEq, Repr
+
+/-- the execution whose retry decision (`rt.Attempt` is part of it) the step `a` takes, if any: on a live context
+    only `decide`; on a context that is done every step of an execution is its (dead) continuation -/
+def deciding (attDone : Bool) : ActC → Option Nat
+  | .ex (.decide i) => some i
+  | .ex (.launch i) => if attDone then some i else none
+  | .ex (.abort i) => if attDone then some i else none
+  | _ => none
+
+/-- the consistency after the step: `Attempt` answering true with `Attempts() = cnt` sets `newCons cnt` -/
+def consAfter (pol : Option Policy) (derived : Bool) (k : MK) (a : ActC) : Nat :=
+  match deciding (k.c.attDone derived) a, pol with
+  | some i, some p =>
+      match k.c.m.exs[i]? with
+      | some (.counted (.err _)) => if p.attempt k.c.m.cnt then (p.newCons k.c.m.cnt).getD k.cons else k.cons
+      | _ => k.cons
+  | _, _ => k.cons
+
+def stepK (pol : Option Policy) (derived : Bool) (k : MK) (a : ActC) : MK :=
+  let c' := stepC pol derived k.c a
+  let cons' := consAfter pol derived k a
+  { c := c', cons := cons', reqCons := if c'.m.sent > k.c.m.sent then cons' :: k.reqCons else k.reqCons }
+
+def initK (c0 hosts e cons : Nat) : MK := { c := initC c0 hosts e, cons := cons }
+
+def runK (pol : Option Policy) (derived : Bool) (k : MK) (sched : List ActC) : MK := sched.foldl (stepK pol derived) k
+
 end ExecutorConc
